@@ -156,4 +156,5 @@ def init(table, reload=False):
     table.properties.append('crystal_structure')
 
     for Z, struct in enumerate(crystal_structures):
-        table[Z].crystal_structure = struct
+        # Each table gets its own copy so that changes do not leak.
+        table[Z].crystal_structure = dict(struct) if struct is not None else None
